@@ -169,6 +169,17 @@ impl PathBuf {
 /// what a directory listing yields (one read of the directory; recovery is single-threaded and holds the directory lock)
 pub uninterp spec fn dir_entries(path: int) -> Seq<Result<DirEntry, IoError>>;
 #[verifier::external_body] pub fn fs_read_dir(p: &PathBuf) -> (r: Result<Vec<Result<DirEntry, IoError>>, IoError>) ensures r is Ok ==> r->Ok_0@ == dir_entries(p.id@) { unimplemented!() }
+/// what is in a log stays in it when the log grows (proved; used for the log of removed directories)
+pub mod seqlem { use vstd::prelude::*;
+pub broadcast proof fn lemma_push_contains(s: Seq<int>, x: int, y: int)
+    ensures #[trigger] s.push(x).contains(y) == (x == y || s.contains(y)),
+{
+    if s.contains(y) { let i = choose|i: int| 0 <= i < s.len() && s[i] == y; assert(s.push(x)[i] == y); }
+    if x == y { assert(s.push(x)[s.len() as int] == y); }
+    if s.push(x).contains(y) { let i = choose|i: int| 0 <= i < s.push(x).len() && s.push(x)[i] == y; if i < s.len() { assert(s[i] == y); } }
+}
+}
+broadcast use seqlem::lemma_push_contains;
 /// what a handle registered by recovery must look like, one predicate per property
 pub open spec fn reg_named(r: RegG, name: Seq<u8>, w0: World) -> bool {   // registered under the name the meta keyspace gives its id
     w0.meta_names.dom().contains(r.id) && w0.meta_names[r.id] == name && w0.opts_in_meta.dom().contains(r.id)
@@ -426,6 +437,8 @@ impl std::ops::Deref for Keyspace { type Target = KeyspaceInner; fn deref(&self)
                 forall|n: Seq<u8>| #![trigger w.registered[n]] is_new(n, *w, *old(w)) ==> reg_lock(w.registered[n], db), // [C17:keyspace-holds-the-directory-lock]
                 w.meta_names == old(w).meta_names && w.opts_in_meta == old(w).opts_in_meta,
                 forall|n: Seq<u8>| old(w).registered.dom().contains(n) ==> w.registered.dom().contains(n),
+                // the folder of a keyspace the meta keyspace no longer knows (deleted, or never completely created) is removed, whatever it still holds
+                forall|j: int| 0 <= j < __fjx_n0 ==> (ents[j] is Ok && !ents[j]->Ok_0.is_file@ && ents[j]->Ok_0.id@ != 0 && !old(w).meta_names.dom().contains(ents[j]->Ok_0.id@) ==> w.removed_dirs.contains(ents[j]->Ok_0.path@)), // [C12:folder-of-a-keyspace-unknown-to-the-meta-keyspace-is-removed-at-recovery]
             ensures __fjx_n0 == total,
             decreases total - __fjx_n0,
 //@proof before let mut __fjx_it0
